@@ -1,4 +1,5 @@
 import SeqIoModel.Proofs.ParallelInvariants
+import SeqIoModel.Proofs.Alloc
 /-!
 # C16 – parallel processing uses a fixed number of recycled data sets
 -/
@@ -27,5 +28,27 @@ theorem recycled_not_recreated (c : Cfg) (s : St) (hT : 0 < c.T) (hQ : 0 < c.Q) 
     (hl : s.rd.inLoop = true) (hca : s.consumerAlive = true) (hme : s.mainErr = false)
     (d : Nat) (hd : d < s.dsCalls) : dsCount s d = 1 :=
   ds_exactly_one c s hT hQ h hl hca hme d hd
+
+/-! ## the sets themselves: overwritten in place, memory independent of the input length
+
+`Model/Alloc.lean` carries the capacities of the `Vec`s of a record set as ghost state (tied to the code by exact
+comparison of allocation counts and `buf_capacity()` on every run, see C18).  A recycled set's buffer is
+`clear(); extend(batch)`ed, its position vector cleared and pushed to: -/
+
+/-- however many batches a recycled record set receives, its buffer never has more than twice the room of the
+largest batch (or the minimum non-zero capacity of a `Vec<u8>`): memory does not grow with the input length -/
+theorem recycled_buffer_memory_bounded (M : Nat) (c : SeqIo.Alloc.Cap) (batches : List Nat)
+    (hb : ∀ n ∈ batches, n ≤ M) (hc : c.lb ≤ max 8 (2 * M)) :
+    (batches.foldl (fun c n => (c.extend 8 n).1) c).lb ≤ max 8 (2 * M) :=
+  SeqIo.Alloc.extend_history_bound 8 M c batches hb hc
+
+/-- the same for the vector of record positions (one push per record of the batch) -/
+theorem recycled_positions_memory_bounded (M : Nat) (c : SeqIo.Alloc.Cap) (batchSizes : List Nat)
+    (hb : ∀ n ∈ batchSizes, n ≤ M) (hc : c.lb ≤ max 4 (2 * M)) :
+    (batchSizes.foldl (fun c n => (c.push 4 n).1) c).lb ≤ max 4 (2 * M) :=
+  SeqIo.Alloc.push_history_bound 4 M c batchSizes hb hc
+
+/-- a fresh set (capacity 0) satisfies the hypothesis -/
+example : ({ lb := 0 } : SeqIo.Alloc.Cap).lb ≤ max 8 (2 * 100) := by decide
 
 end SeqIo.Thm.C16
